@@ -21,6 +21,8 @@ func init() {
 		},
 		Run: runC24,
 		Controls: []Control{
+			{Name: "remove-truncates-at-the-match", File: "protocols/bgp/server/peer.go", Old: "\tfsms := make([]*FSM, 0, len(p.fsms))\n\tfor _, f := range p.fsms {\n\t\tif f != fsm {\n\t\t\tfsms = append(fsms, f)\n\t\t}\n\t}\n\n\tp.fsms = fsms\n", New: "\tfor i := range p.fsms {\n\t\tif p.fsms[i] != fsm {\n\t\t\tcontinue\n\t\t}\n\t\tcopy(p.fsms[i:], p.fsms[i+1:])\n\t\tp.fsms = p.fsms[:i]\n\t\treturn\n\t}\n", Expect: "ended-fsm-alone-leaves-the-list"},
+			{Name: "refactor-remove-cuts-in-place", Silent: true, File: "protocols/bgp/server/peer.go", Old: "\tfsms := make([]*FSM, 0, len(p.fsms))\n\tfor _, f := range p.fsms {\n\t\tif f != fsm {\n\t\t\tfsms = append(fsms, f)\n\t\t}\n\t}\n\n\tp.fsms = fsms\n", New: "\tfor i := range p.fsms {\n\t\tif p.fsms[i] != fsm {\n\t\t\tcontinue\n\t\t}\n\t\tcopy(p.fsms[i:], p.fsms[i+1:])\n\t\tp.fsms = p.fsms[:len(p.fsms)-1]\n\t\treturn\n\t}\n"},
 			{Name: "collision-check-stops-at-first-non-openconfirm", File: "protocols/bgp/server/peer.go", Old: "\t\tif !isOpenConfirm {\n\t\t\tcontinue\n\t\t}\n", New: "\t\tif !isOpenConfirm {\n\t\t\treturn false\n\t\t}\n", Expect: "collision-path"},
 			{Name: "ended-fsm-stays-listed", File: "protocols/bgp/server/fsm.go", Old: "\t\t\tfsm.peer.removeFSM(fsm)\n", New: "", Expect: "collision-path"},
 			{Name: "state-predicate-on-value-type", File: "protocols/bgp/server/peer.go", Old: "\tcase *establishedState:\n\t\treturn true", New: "\tcase establishedState:\n\t\treturn true", Expect: "state-switch-case-inhabited"},
@@ -413,6 +415,10 @@ func runC24(c *core.Ctx) {
 		c.Check(len(rets) == 0 && !implicit, "collision-path", run.Name()+" takes the FSM off the peer's list before it ends", pos,
 			"FSM.run can return (the FSM ends for good, e.g. as the loser of a collision) while the FSM stays in peer.fsms with its last published state: the next collision check sends Cease to it and blocks for ever holding the list lock, or keeps refusing new connections; peer.stop blocks on it as well")
 	}
+
+	// (3f) taking the ended FSM off the list removes that FSM only: the other connection of the collision stays known to
+	// the peer (it is the one that survives)
+	removeExactlyOne(c, "ended-fsm-alone-leaves-the-list", c.MustFunc(srv+".(*peer).removeFSM"), p.Field(srv, "peer", "fsms"), "removes only the FSM given")
 
 	// (4) cease sends NOTIFICATION(Cease) before Close
 	ceaseC := p.Object("protocols/bgp/packet", "Cease")
